@@ -761,3 +761,211 @@ class ValidateIdem(Oracle):
         sa = [x for x in a.split(";") if ":i:" not in x]
         sb = [x for x in b.split(";") if ":i:" not in x]
         return sa == sb
+
+
+# ------------------------------------------------------------------------------------------------
+# C15: paths identify nodes; C04: edit histories keep the tree canonical and searchable
+# ------------------------------------------------------------------------------------------------
+def quote_pred(v):
+    return "'%s'" % v if "'" not in v else '"%s"' % v
+
+
+def node_path(n, parents):
+    """this file's own rendering of the data path of an instance node (independent of lyd_path)"""
+    out = ""
+    chain = parents + [n]
+    prevmod = None
+    for i, x in enumerate(chain):
+        s = x.schema
+        out += "/" + (("%s:" % s.module.name) if s.module is not prevmod else "") + s.name
+        prevmod = s.module
+        if s.kind == "list" and s.keys:
+            for c in x.children:
+                if c.schema.name in s.keys:
+                    out += "[%s=%s]" % (c.schema.name, quote_pred(c.value))
+        elif s.kind == "leaf-list" and s.config:
+            out += "[.=%s]" % quote_pred(x.value)
+    return out
+
+
+def walk_paths(forest, parents=None):
+    parents = parents or []
+    for n in forest:
+        yield n, parents
+        yield from walk_paths(n.children, parents + [n])
+
+
+class Paths(Oracle):
+    """C15: for every node, lyd_path() is accepted by lyd_find_path and lyd_find_xpath and both return exactly that node;
+    creating from that path (+value) in an empty tree gives the node and its ancestors; creating an existing node reports
+    LY_EEXIST (no duplicate)."""
+    name = "paths"
+
+    def __init__(self):
+        self.info = {}
+
+    def gen(self, rng, tier, scale=1.0):
+        L = []
+        for i in range(self.n(tier, 100, 4000, scale)):
+            m, ig = gen_case(rng, adversarial=True, meta_prob=0.0, state=(i % 2 == 0))
+            ig.max_inst = 3
+            f = ig.forest(m)
+            nn = yanggen.count_nodes(f)
+            if nn == 0 or nn > 120:
+                continue
+            s = Script()
+            s.ctx()
+            s.mod(m.yang())
+            s.parse(0, "j", yanggen.to_json(f), popts=PARSE_STRICT | PARSE_ONLY, vopts=0)      # 2
+            s.add("count", "t0")                                                               # 3
+            s.add("paths", "t0")                                                               # 4 per node: path find xfind
+            s.add("rebuild", "t0", "c0")                                                       # 5 per node: newpath in empty tree
+            L.append(s.line())
+            both = any(n.value is not None and "'" in n.value and '"' in n.value and
+                       (n.schema.kind == "leaf-list" or getattr(n.schema, "is_key", False)) for n, _ in walk_paths(f))
+            self.info[L[-1]] = both
+        return L
+
+    def judge(self, line, out):
+        if crashed(out):
+            return (None, "crash: " + out)
+        r = results(out)
+        if r[1] != "0" or rc(r[2]) != 0:
+            return None
+        both = self.info.get(line, False)
+        for k, what in ((4, "find"), (5, "rebuild")):
+            if r[k] != "ok":
+                if both and "both-quotes" in r[k]:
+                    return ("path-both-quotes", r[k][:300])
+                return (None, "%s: %s" % (what, r[k][:400]))
+        return None
+
+
+def creation_items(forest):
+    """(path, value) items whose creation by lyd_new_path rebuilds the forest: every term that is not a key, every list
+    instance and every childless container"""
+    items = []
+    for n, parents in walk_paths(forest):
+        s = n.schema
+        if any(p.schema.kind == "list" and not p.schema.keys for p in parents + [n]):
+            return None                     # key-less lists are not addressable by value
+        if s.kind == "leaf-list" and not s.config:
+            return None
+        if n.value is not None and "'" in n.value and '"' in n.value and (s.kind == "leaf-list" or s.is_key):
+            return None                     # not expressible in a path predicate (known finding path-both-quotes)
+        if s.kind == "leaf":
+            if not s.is_key:
+                items.append((node_path(n, parents), n.value))
+        elif s.kind == "leaf-list":
+            items.append((node_path(n, parents), None))
+        elif s.kind == "list" or (s.kind == "container" and (s.presence or not n.children)):
+            items.append((node_path(n, parents), None))
+    return items
+
+
+class EditHistory(Oracle):
+    """C04: after every editing call of a random history (create by path, free, change value incl. keys and leaf-list
+    values, unlink + re-insert, merge, apply diff, add implicit, validate) the tree passes the read-only invariant check
+    (links, schema order, contiguity, sortedness, children_ht content, every search = scan) and printing + parsing it back
+    gives the same tree; the same node set created in two different orders gives equal trees."""
+    name = "edit-history"
+    quick_sanitize = True
+
+    def gen(self, rng, tier, scale=1.0):
+        L = []
+        for i in range(self.n(tier, 120, 5000, scale)):
+            uo = (i % 3 == 0)
+            m, ig = gen_case(rng, adversarial=(i % 4 == 0), meta_prob=0.0, userord=uo, state=False)
+            ig.max_inst = 6 if i % 2 else 3
+            a = ig.forest(m)
+            b = yanggen.cross(rng, a, ig.forest(m), m.nodes)
+            ia, ib = creation_items(a), creation_items(b)
+            if not ia or not ib:
+                continue
+            s = Script()
+            s.ctx()
+            s.mod(m.yang())
+            s.parse(0, "x", yanggen.to_xml(a), popts=PARSE_STRICT | PARSE_ONLY, vopts=0)   # 2
+            s.parse(1, "j", yanggen.to_json(b), popts=PARSE_STRICT | PARSE_ONLY, vopts=0)  # 3
+            s.add("inv", "t0")
+            nops = rng.randrange(5, 25)
+            for _ in range(nops):
+                r = rng.random()
+                if r < 0.3:
+                    p, v = rng.choice(ib)
+                    s.add("newpath", "t0", "c0", NEWPATH_UPDATE, hexs(p), hexs(v) if v is not None else "~")
+                elif r < 0.45:
+                    p, v = rng.choice(ia + ib)
+                    s.add("freepath", "t0", hexs(p))
+                elif r < 0.65:
+                    # change a value: of any term of A or B (keys and leaf-list values included) to a value of B's
+                    n, parents = rng.choice([x for x in walk_paths(a + b) if x[0].value is not None] or [(None, None)])
+                    if n is None:
+                        continue
+                    s.add("chgpath", "t0", hexs(node_path(n, parents)), hexs(n.schema.type.valid(rng)))
+                elif r < 0.75:
+                    k = rng.randrange(0, 30)
+                    s.add("unlink", "t0#%d" % k, "t5")
+                    s.add("ins", rng.choice(["sibling", "child", "before", "after"]), "t0#%d" % rng.randrange(0, 30), "t5")
+                    s.add("free", "t5")
+                elif r < 0.82:
+                    s.add("merge", "t0", "t1", 0)
+                elif r < 0.88:
+                    # diff/apply are defined on valid trees only (an edit may have produced duplicate instances)
+                    s.add("val", "t0", "c0", VAL_PRESENT)
+                    s.add("ifok", "diff", "t0", "t1", DIFF_DEFAULTS, "t6")
+                    s.add("ifok", "apply", "t0", "t6")
+                elif r < 0.94:
+                    s.add("implicit", "t0", "c0", 0)
+                else:
+                    s.add("val", "t0", "c0", VAL_PRESENT)
+                s.add("inv", "t0")
+            s.dump(0, 2)
+            s.add("rt", "t0", "t9", "x", PRINT_SIBLINGS | PRINT_SHRINK | WD_ALL | PRINT_KEEPEMPTY, PARSE_ONLY | PARSE_STRICT, 0, "c0")
+            s.dump(9, 2)
+            # order independence of creation (not for user-ordered data)
+            if not uo:
+                for slot in (10, 11):
+                    items = list(ia)
+                    rng.shuffle(items)
+                    for p, v in items:
+                        s.add("newpath", "t%d" % slot, "c0", NEWPATH_UPDATE, hexs(p), hexs(v) if v is not None else "~")
+                s.add("inv", "t10")
+                s.add("cmp", "t10", "t11", CMP_FULL)
+                s.dump(10, 2); s.dump(11, 2)
+                s.add("free", "t12")
+                s.parse(12, "x", yanggen.to_xml(a), popts=PARSE_STRICT | PARSE_ONLY, vopts=0)
+                s.add("cmp", "t10", "t12", CMP_FULL)
+                s.dump(12, 2)
+            L.append(s.line())
+        return L
+
+    def judge(self, line, out):
+        if crashed(out):
+            return (None, "crash: " + out + " " + getattr(self, "last_err", "")[-300:])
+        r = results(out)
+        if r[1] != "0" or rc(r[2]) != 0 or rc(r[3]) != 0:
+            return None
+        cmds = line.split("\t")[1:]
+        for k, c in enumerate(cmds):
+            if c.startswith("inv ") and r[k] != "ok":
+                prev = cmds[k - 1].replace("ifok ", "").split(" ")[0] if k else ""
+                tag = None
+                if "siblings not in schema order" in r[k] and prev in ("val", "implicit", "apply"):
+                    tag = "implicit-toplevel-order"
+                return (tag, "after '%s': %s" % (" ".join(cmds[k - 1].split(" ")[:3]), r[k]))
+            if "!" in r[k] and not c.startswith("dump"):
+                return (None, "after '%s': %s" % (" ".join(c.split(" ")[:3]), r[k]))
+        # print/parse fixpoint
+        k = max(i for i, c in enumerate(cmds) if c.startswith("rt t0 t9"))
+        if rc(r[k]) != 0 or r[k - 1] != r[k + 1]:
+            return (None, "printing the edited tree and parsing it back gives a different tree (rt=%s)" % r[k])
+        if cmds[-1].startswith("dump t12"):
+            n = len(cmds)
+            if r[n - 8] != "ok":
+                return (None, "tree built by lyd_new_path breaks an invariant: " + r[n - 8])
+            if r[n - 7] != "0" or r[n - 6] != r[n - 5]:
+                return (None, "the same node set created in two different orders gives different trees")
+            if r[n - 2] != "0" or r[n - 1] != r[n - 6]:
+                return (None, "tree built by lyd_new_path differs from the parsed tree of the same instance")
+        return None
